@@ -1,8 +1,9 @@
 /-
-  Transform (for C07): vocabulary of the (not yet proved) invariant `TransOK` — what the file contains at
-  every control point of a running Transform, in terms of `old` (the newest committed value when it got
-  its lock) and `new = t old` — used by the `…_statement` definitions of Props/C07, and the byte-level
-  lemmas about pwrite / ftruncate that its proof needs.
+  Transform (for C07): the invariant `TransOK` — what the file contains at every control point of a running
+  Transform, in terms of `old` (the newest committed value when it got its lock) and `new = t old`, which
+  faults it has seen, and what it committed — proved inductive over all interleavings (`reachable_Inv4`):
+  one lemma per control point for the Transform's own step (`t_step_…`), and `transOK_other` for the steps
+  of other clients (frame argument: while it holds the exclusive lock nobody else changes the file).
 -/
 import GIV.Lemmas.LockedfileLin
 namespace GIV.Lockedfile
@@ -32,41 +33,718 @@ def NoRb (flt : List (Tag × Fault)) : Prop := ∀ x ∈ flt, x.1 ≠ .tailUndo 
 
 theorem NoRb.tail {x : Tag × Fault} {flt} (h : NoRb (x :: flt)) : NoRb flt := fun y hy => h y (List.mem_cons_of_mem _ hy)
 
-/-- What a Transform is about to return, against what the file holds / what it committed (`v`). -/
-def TFin (t : Bytes → Option Bytes) (h1 : List Bytes) (flt : List (Tag × Fault)) (ret : Ret) (v : Bytes) : Prop :=
-  ∃ o, h1.head? = some o ∧ ((ret = .ok ∧ t o = some v) ∨ (ret = .err ∧ (NoRb flt → v = o)))
+theorem faultErr_affects {f : Fault} {e : Err} (h : faultErr f = some e) (s : Sys) : f.affects s = true := by
+  cases f <;> simp [faultErr] at h <;> cases s <;> rfl
 
-theorem TFin.mono {t h1 flt ret v} (x : Tag × Fault) (h : TFin t h1 flt ret v) : TFin t h1 (x :: flt) ret v := by
+end GIV.Lockedfile
+
+namespace GIV.Lockedfile
+open GIV
+
+/-! ### outcome of a call on the operation's own descriptor, classified by the injected fault -/
+
+theorem faultErr_none_cases {f : Fault} (h : faultErr f = none) : f = .none ∨ ∃ k, f = .short k := by
+  cases f <;> simp [faultErr] at h <;> simp
+
+theorem affects_false_of_noerr {f : Fault} (h : faultErr f = none) {s : Sys}
+    (hw : ∀ fd bs, s ≠ .write fd bs) (hp : ∀ fd bs off, s ≠ .pwrite fd bs off) : f.affects s = false := by
+  rcases faultErr_none_cases h with rfl | ⟨k, rfl⟩
+  · cases s <;> rfl
+  · cases s <;> first | rfl | (exact absurd rfl (hw _ _)) | (exact absurd rfl (hp _ _ _))
+
+theorem cls_read {w w' : World} {c fd n f r o} (ho : w.fds fd = some o) (hrd : o.rd = true)
+    (h : osStep w c (.read fd n) f = some (w', r)) :
+    (∃ e, faultErr f = some e ∧ r = .err e ∧ w' = w) ∨
+    (faultErr f = none ∧
+      ((o.off < (w.content o.path).length ∧ r = .bytes (((w.content o.path).drop o.off).take n) ∧
+          w' = { w with fds := upd w.fds fd (some { o with off := o.off + (((w.content o.path).drop o.off).take n).length }) }) ∨
+       (¬ o.off < (w.content o.path).length ∧ r = .eof ∧ w' = w))) := by
+  simp only [osStep, ho] at h
+  cases hf : faultErr f with
+  | some e => simp [hf] at h; exact .inl ⟨e, rfl, h.2.symm, h.1.symm⟩
+  | none =>
+    simp only [hf] at h
+    rw [if_pos hrd] at h
+    by_cases hlt : o.off < (w.content o.path).length
+    · rw [if_pos hlt] at h
+      simp only [Option.some.injEq, Prod.mk.injEq] at h
+      exact .inr ⟨rfl, .inl ⟨hlt, h.2.symm, h.1.symm⟩⟩
+    · rw [if_neg hlt] at h
+      simp only [Option.some.injEq, Prod.mk.injEq] at h
+      exact .inr ⟨rfl, .inr ⟨hlt, h.2.symm, h.1.symm⟩⟩
+
+theorem cls_pwrite {w w' : World} {c fd bs off f r o} (ho : w.fds fd = some o) (hwr : o.wr = true)
+    (happ : o.app = false) (h : osStep w c (.pwrite fd bs off) f = some (w', r)) :
+    (∃ e, faultErr f = some e ∧ r = .err e ∧ w' = w) ∨
+    (f = .none ∧ r = .n bs.length ∧
+      w' = { w with files := upd w.files o.path (some (pwriteAt (w.content o.path) off bs)) }) ∨
+    (∃ k, f = .short k ∧ r = .short (bs.take k).length ∧
+      w' = { w with files := upd w.files o.path (some (pwriteAt (w.content o.path) off (bs.take k))) }) := by
+  have happ' : ¬ (o.app = true) := by simp [happ]
+  simp only [osStep, ho] at h
+  cases f with
+  | none =>
+    simp only [faultErr] at h; rw [if_neg happ', if_pos hwr] at h
+    simp only [Option.some.injEq, Prod.mk.injEq] at h
+    exact .inr (.inl ⟨rfl, h.2.symm, h.1.symm⟩)
+  | fail => simp [faultErr] at h; exact .inl ⟨_, rfl, h.2.symm, h.1.symm⟩
+  | eintr => simp [faultErr] at h; exact .inl ⟨_, rfl, h.2.symm, h.1.symm⟩
+  | short k =>
+    simp only [faultErr] at h; rw [if_neg happ', if_pos hwr] at h
+    simp only [Option.some.injEq, Prod.mk.injEq] at h
+    exact .inr (.inr ⟨k, rfl, h.2.symm, h.1.symm⟩)
+
+theorem cls_write {w w' : World} {c fd bs f r o} (ho : w.fds fd = some o) (hwr : o.wr = true)
+    (happ : o.app = false) (h : osStep w c (.write fd bs) f = some (w', r)) :
+    (∃ e, faultErr f = some e ∧ r = .err e ∧ w' = w) ∨
+    (f = .none ∧ r = .n bs.length ∧
+      w' = { w with files := upd w.files o.path (some (pwriteAt (w.content o.path) o.off bs)),
+                    fds := upd w.fds fd (some { o with off := o.off + bs.length }) }) ∨
+    (∃ k, f = .short k ∧ r = .short (bs.take k).length ∧
+      w' = { w with files := upd w.files o.path (some (pwriteAt (w.content o.path) o.off (bs.take k))),
+                    fds := upd w.fds fd (some { o with off := o.off + (bs.take k).length }) }) := by
+  have happ' : ¬ (o.app = true) := by simp [happ]
+  simp only [osStep, ho] at h
+  cases f with
+  | none =>
+    simp only [faultErr] at h; rw [if_pos hwr] at h
+    simp only [if_neg happ', Option.some.injEq, Prod.mk.injEq] at h
+    exact .inr (.inl ⟨rfl, h.2.symm, h.1.symm⟩)
+  | fail => simp [faultErr] at h; exact .inl ⟨_, rfl, h.2.symm, h.1.symm⟩
+  | eintr => simp [faultErr] at h; exact .inl ⟨_, rfl, h.2.symm, h.1.symm⟩
+  | short k =>
+    simp only [faultErr] at h; rw [if_pos hwr] at h
+    simp only [if_neg happ', Option.some.injEq, Prod.mk.injEq] at h
+    exact .inr (.inr ⟨k, rfl, h.2.symm, h.1.symm⟩)
+
+theorem cls_ftruncate {w w' : World} {c fd n f r o} (ho : w.fds fd = some o) (hwr : o.wr = true)
+    (h : osStep w c (.ftruncate fd n) f = some (w', r)) :
+    (∃ e, faultErr f = some e ∧ r = .err e ∧ w' = w) ∨
+    (faultErr f = none ∧ r = .ok ∧
+      w' = { w with files := upd w.files o.path (some (resize (w.content o.path) n)) }) := by
+  simp only [osStep, ho] at h
+  cases hf : faultErr f with
+  | some e => simp [hf] at h; exact .inl ⟨e, rfl, h.2.symm, h.1.symm⟩
+  | none =>
+    simp only [hf] at h; rw [if_pos hwr] at h
+    simp only [Option.some.injEq, Prod.mk.injEq] at h
+    exact .inr ⟨rfl, h.2.symm, h.1.symm⟩
+
+theorem cls_funlock {w w' : World} {c fd f r o} (ho : w.fds fd = some o)
+    (h : osStep w c (.funlock fd) f = some (w', r)) :
+    (∃ e, faultErr f = some e ∧ r = .err e ∧ w' = w) ∨
+    (faultErr f = none ∧ r = .ok ∧ w' = dropLock w fd o.path) := by
+  simp only [osStep, ho] at h
+  cases hf : faultErr f with
+  | some e => simp [hf] at h; exact .inl ⟨e, rfl, h.2.symm, h.1.symm⟩
+  | none => simp [hf] at h; exact .inr ⟨rfl, h.2.symm, h.1.symm⟩
+
+theorem cls_close {w w' : World} {c fd f r o} (ho : w.fds fd = some o)
+    (h : osStep w c (.close fd) f = some (w', r)) :
+    (∃ e, faultErr f = some e ∧ r = .err e ∧ w' = w) ∨
+    (faultErr f = none ∧ r = .ok ∧ w' = closeFd w fd o.path) := by
+  simp only [osStep, ho] at h
+  cases hf : faultErr f with
+  | some e => simp [hf] at h; exact .inl ⟨e, rfl, h.2.symm, h.1.symm⟩
+  | none => simp [hf] at h; exact .inr ⟨rfl, h.2.symm, h.1.symm⟩
+
+theorem cls_flock {w w' : World} {c fd k f r o} (ho : w.fds fd = some o) (hacc : (o.rd || o.wr) = true)
+    (h : osStep w c (.flock fd k) f = some (w', r)) :
+    (∃ e, faultErr f = some e ∧ r = .err e ∧ w' = w) ∨
+    (faultErr f = none ∧ compatible w fd o.path k = true ∧ r = .ok ∧ w' = acquire w fd o.path k) := by
+  simp only [osStep, ho, hacc] at h
+  simp only [Bool.not_true, Bool.false_eq_true, if_false] at h
+  split at h
+  · rename_i hc
+    cases hf : faultErr f with
+    | some e => simp [hf] at h; exact .inl ⟨e, rfl, h.2.symm, h.1.symm⟩
+    | none => simp [hf] at h; exact .inr ⟨rfl, hc, h.2.symm, h.1.symm⟩
+  · cases h
+
+theorem cls_open {w w' : World} {c p fl f r} (hcr : fCreat fl = true) (hex : fExcl fl = false)
+    (h : osStep w c (.open p fl) f = some (w', r)) :
+    (∃ e, faultErr f = some e ∧ r = .err e ∧ w' = w) ∨
+    (faultErr f = none ∧ r = .fd w.nextFd ∧
+      w' = { w with files := upd w.files p (some (if fTrunc fl then [] else w.content p)),
+                    fds := upd w.fds w.nextFd (some ⟨p, 0, accRd fl, accWr fl, fAppend fl, c⟩),
+                    nextFd := w.nextFd + 1 }) := by
+  simp only [osStep] at h
+  cases hf : faultErr f with
+  | some e => simp [hf] at h; exact .inl ⟨e, rfl, h.2.symm, h.1.symm⟩
+  | none =>
+    simp [hf, hcr, hex] at h
+    exact .inr ⟨rfl, h.2.symm, h.1.symm⟩
+
+end GIV.Lockedfile
+
+namespace GIV.Lockedfile
+open GIV
+
+/-! ### the Transform invariant -/
+
+/-- only (retried or failed) flock faults so far -/
+def Clean (flt : List (Tag × Fault)) : Prop := ∀ x ∈ flt, x.1 = .lock
+/-- only faults that do not make Transform return an error: flock retries, closeFile's Unlock / Close -/
+def OkTags (flt : List (Tag × Fault)) : Prop := ∀ x ∈ flt, x.1 = .lock ∨ x.1 = .unlock ∨ x.1 = .close
+/-- no fault hit closeFile -/
+def NoUC (flt : List (Tag × Fault)) : Prop := ∀ x ∈ flt, x.1 ≠ .unlock ∧ x.1 ≠ .close
+
+theorem Clean.okTags {flt} (h : Clean flt) : OkTags flt := fun x hx => .inl (h x hx)
+
+/-- What a Transform is about to return (`ret`), against what the file holds / what it committed (`v`). -/
+def TFin (t : Bytes → Option Bytes) (h1 : List Bytes) (flt : List (Tag × Fault)) (ret : Ret) (v : Bytes) : Prop :=
+  ∃ o, h1.head? = some o ∧
+    ((ret = .ok ∧ t o = some v ∧ OkTags flt) ∨ (ret = .err ∧ (NoRb flt → v = o) ∧ (flt ≠ [] ∨ t o = none)))
+
+theorem TFin.mono {t h1 flt ret v} (x : Tag × Fault) (hx : x.1 = .unlock ∨ x.1 = .close)
+    (h : TFin t h1 flt ret v) : TFin t h1 (x :: flt) ret v := by
   obtain ⟨o, h1, h2⟩ := h
   refine ⟨o, h1, ?_⟩
-  rcases h2 with h2 | ⟨h2, h3⟩
-  · exact .inl h2
-  · exact .inr ⟨h2, fun hn => h3 hn.tail⟩
+  rcases h2 with ⟨h2, h3, h4⟩ | ⟨h2, h3, h4⟩
+  · refine .inl ⟨h2, h3, fun y hy => ?_⟩
+    rcases List.mem_cons.1 hy with rfl | hy
+    · exact .inr hx
+    · exact h4 y hy
+  · exact .inr ⟨h2, fun hn => h3 hn.tail, .inl (by simp)⟩
+
+def TDone (t : Bytes → Option Bytes) (h1 : List Bytes) (flt : List (Tag × Fault)) (committed : Option Bytes)
+    (ret : Ret) : Prop :=
+  (∀ v, committed = some v → TFin t h1 flt ret v) ∧ (h1 ≠ [] → NoUC flt → committed.isSome = true)
+
+theorem TDone.mono {t h1 flt com ret} (x : Tag × Fault) (hx : x.1 = .unlock ∨ x.1 = .close)
+    (h : TDone t h1 flt com ret) : TDone t h1 (x :: flt) com ret :=
+  ⟨fun v hv => (h.1 v hv).mono x hx, fun hh hn => h.2 hh (fun y hy => hn y (List.mem_cons_of_mem _ hy))⟩
+
+/-- The operation's commit sits directly on top of the history it saw at its flock step (no lost update), and
+stays there. -/
+def Pushed (w : World) (p : Path) (h1 : List Bytes) (committed : Option Bytes) : Prop :=
+  ∀ v, committed = some v → (v :: h1) <:+ w.hist p
+
+theorem Pushed.mono {w w' : World} {p h1 com} (h : Pushed w p h1 com) (hs : w.hist p <:+ w'.hist p) :
+    Pushed w' p h1 com := fun v hv => (h v hv).trans hs
+
+theorem step_hist_suffix {s s' : State} {l : Label} (h : step s l = some s') (p : Path) :
+    s.w.hist p <:+ s'.w.hist p := by
+  obtain ⟨c, a⟩ := l
+  cases a with
+  | call op => obtain ⟨_, _, rfl⟩ := step_call h; exact List.suffix_refl _
+  | ret => obtain ⟨_, _, _, _, rfl⟩ := step_ret h; exact List.suffix_refl _
+  | sys f n => obtain ⟨_, _, _, _, _, _, _, hos, rfl⟩ := step_sys h; exact osStep_hist_suffix hos p
+
+/-- Releasing the exclusive lock through `fd` pushes the contents on the history. -/
+theorem dropLock_pushes {w : World} {fd : Fd} {p : Path} (h : holdsFd w fd p .ex) :
+    (dropLock w fd p).hist p = w.content p :: w.hist p := by
+  rw [dropLock_hist, if_pos ⟨rfl, h⟩]
 
 def TransP (w : World) (p : Path) (t : Bytes → Option Bytes) (h1 : List Bytes) (flt : List (Tag × Fault))
     (committed : Option Bytes) : Pc → Prop
-  | .open => True
-  | .lock fd => ∃ o, w.fds fd = some o ∧ o.off = 0
-  | .tRead fd acc => h1.head? = some (w.content p) ∧
+  | .open => committed = none ∧ Clean flt
+  | .lock fd => committed = none ∧ Clean flt ∧ ∃ o, w.fds fd = some o ∧ o.off = 0
+  | .tRead fd acc => committed = none ∧ h1.head? = some (w.content p) ∧ Clean flt ∧
       ∃ o, w.fds fd = some o ∧ acc = (w.content p).take acc.length ∧ o.off = acc.length
-  | .tTail _ o n => h1.head? = some o ∧ w.content p = o ∧ t o = some n ∧ n.length > o.length
-  | .tTailUndo _ o => h1.head? = some o ∧ (w.content p).take o.length = o
-  | .tBody _ o n => h1.head? = some o ∧ t o = some n ∧
+  | .tTail _ o n => committed = none ∧ h1.head? = some o ∧ Clean flt ∧ w.content p = o ∧ t o = some n ∧
+      n.length > o.length
+  | .tTailUndo _ o => committed = none ∧ h1.head? = some o ∧ (w.content p).take o.length = o ∧ flt ≠ []
+  | .tBody _ o n => committed = none ∧ h1.head? = some o ∧ Clean flt ∧ t o = some n ∧
       w.content p = (if n.length > o.length then o ++ n.drop o.length else o)
-  | .tShrink _ o n => h1.head? = some o ∧ t o = some n ∧ n.length < o.length ∧ w.content p = n ++ o.drop n.length
-  | .tRb1 _ o => h1.head? = some o
-  | .tRb2 _ o => h1.head? = some o ∧ (w.content p).take o.length = o
-  | .unlock _ ret => TFin t h1 flt ret (w.content p)
-  | .close _ ret true => TFin t h1 flt ret (w.content p)
-  | .close _ ret false => ∀ v, committed = some v → TFin t h1 flt ret v
-  | .done ret => ∀ v, committed = some v → TFin t h1 flt ret v
+  | .tShrink _ o n => committed = none ∧ h1.head? = some o ∧ Clean flt ∧ t o = some n ∧ n.length < o.length ∧
+      w.content p = n ++ o.drop n.length
+  | .tRb1 _ o => committed = none ∧ h1.head? = some o ∧ flt ≠ []
+  | .tRb2 _ o => committed = none ∧ h1.head? = some o ∧ (w.content p).take o.length = o ∧ flt ≠ []
+  | .unlock _ ret => committed = none ∧ TFin t h1 flt ret (w.content p)
+  | .close _ ret true => committed = none ∧ TFin t h1 flt ret (w.content p)
+  | .close _ ret false => TDone t h1 flt committed ret ∧ Pushed w p h1 committed
+  | .done ret => TDone t h1 flt committed ret ∧ Pushed w p h1 committed
   | _ => False
 
 def TransOK (w : World) (fr : Frame) (t : Bytes → Option Bytes) : Prop :=
   TransP w fr.op.path t fr.h1 fr.flt fr.committed fr.pc
 
-theorem faultErr_affects {f : Fault} {e : Err} (h : faultErr f = some e) (s : Sys) : f.affects s = true := by
-  cases f <;> simp [faultErr] at h <;> cases s <;> rfl
+theorem content_setFile (w : World) (p : Path) (d : Bytes) :
+    World.content { w with files := upd w.files p (some d) } p = d := by
+  simp [World.content, contentOf]
 
+theorem nextFrame_flt_err {w w' : World} {fr : Frame} {sc tag f n r e} (h : faultErr f = some e) :
+    (nextFrame w w' fr sc tag f n r).flt = (tag, f) :: fr.flt := by
+  simp [nextFrame, faultErr_affects h]
+
+theorem nextFrame_flt_none {w w' : World} {fr : Frame} {sc tag n r} :
+    (nextFrame w w' fr sc tag .none n r).flt = fr.flt := by
+  simp [nextFrame, Fault.affects]
+
+theorem nextFrame_flt_noerr {w w' : World} {fr : Frame} {sc tag f n r} (h : faultErr f = none)
+    (hw : ∀ fd bs, sc ≠ .write fd bs) (hp : ∀ fd bs off, sc ≠ .pwrite fd bs off) :
+    (nextFrame w w' fr sc tag f n r).flt = fr.flt := by
+  simp [nextFrame, affects_false_of_noerr h hw hp]
+
+theorem nextFrame_flt_short_pwrite {w w' : World} {fr : Frame} {fd bs off tag k n r} :
+    (nextFrame w w' fr (.pwrite fd bs off) tag (.short k) n r).flt = (tag, .short k) :: fr.flt := by
+  simp [nextFrame, Fault.affects]
+
+theorem nextFrame_flt_short_write {w w' : World} {fr : Frame} {fd bs tag k n r} :
+    (nextFrame w w' fr (.write fd bs) tag (.short k) n r).flt = (tag, .short k) :: fr.flt := by
+  simp [nextFrame, Fault.affects]
+
+theorem nextFrame_committed_keep {w w' : World} {fr : Frame} {sc tag f n r} (h : releases fr.pc r = false) :
+    (nextFrame w w' fr sc tag f n r).committed = fr.committed := by
+  simp [nextFrame, h]
+
+end GIV.Lockedfile
+
+
+namespace GIV.Lockedfile
+open GIV
+
+structure TCtx (s : State) (c : Cid) (fr : Frame) (p : Path) (t : Bytes → Option Bytes) : Prop where
+  hi : Inv1 s
+  h2 : Inv2 s
+  hcur : (s.cl c).cur = some fr
+  hop : fr.op = .transform p t
+
+theorem TCtx.flag {s c fr p t} (cx : TCtx s c fr p t) : fr.op.flag = Gen.Lockedfile.flagsEdit := by
+  rw [cx.hop]; rfl
+
+/-- the operation's own descriptor: open, on the right file, readable, writable, not O_APPEND -/
+theorem TCtx.own {s c fr p t} (cx : TCtx s c fr p t) {fd : Fd} (hfd : fr.pc.fd? = some fd) :
+    ∃ o, s.w.fds fd = some o ∧ o.path = fr.op.path ∧ o.rd = true ∧ o.wr = true ∧ o.app = false := by
+  obtain ⟨ho, _, _⟩ := ((cx.hi.clients c).frame fr cx.hcur).fd fd hfd
+  obtain ⟨o, h1, h2, _, h3, h4, h5⟩ := ho.open
+  refine ⟨o, h1, h2, h3.trans ?_, h4.trans ?_, h5.trans ?_⟩ <;> rw [cx.flag] <;> decide
+
+theorem TCtx.hist {s c fr p t} (cx : TCtx s c fr p t) : HistOK s.w fr :=
+  cx.h2.hist c fr cx.hcur (by rw [cx.hop]; rfl)
+
+/-- unfold the invariant of the successor frame into its components -/
+theorem transOK_next {s : State} {w' : World} {fr : Frame} {t sc tag f n r} :
+    TransOK w' (nextFrame s.w w' fr sc tag f n r) t ↔
+    TransP w' fr.op.path t (nextFrame s.w w' fr sc tag f n r).h1 (nextFrame s.w w' fr sc tag f n r).flt
+      (nextFrame s.w w' fr sc tag f n r).committed (advancePc fr.op fr.pc n r) := Iff.rfl
+
+theorem t_step_tTail {s : State} {w' : World} {c fr p t fd o nw f n r} (cx : TCtx s c fr p t)
+    (hpc : fr.pc = .tTail fd o nw) (hr : TransOK s.w fr t)
+    (h : osStep s.w c (.pwrite fd (nw.drop o.length) o.length) f = some (w', r)) :
+    TransOK w' (nextFrame s.w w' fr (.pwrite fd (nw.drop o.length) o.length) .tail f n r) t := by
+  obtain ⟨od, hod, hpath, _, hwr, happ⟩ := cx.own (fd := fd) (by simp [hpc, Pc.fd?])
+  unfold TransOK at hr; rw [hpc] at hr
+  obtain ⟨hcn, hd, hcl, hD, ht, hlen⟩ := hr
+  have hD' : s.w.content od.path = o := by rw [hpath]; exact hD
+  rw [transOK_next, nextFrame_h1_eq (by intro fd e; rw [hpc] at e; cases e),
+    nextFrame_committed_keep (by simp [hpc, releases]), hpc]
+  rcases cls_pwrite hod hwr happ h with ⟨e, hf, rfl, rfl⟩ | ⟨rfl, rfl, rfl⟩ | ⟨k, rfl, rfl, rfl⟩
+  · rw [nextFrame_flt_err hf]; simp only [advancePc]
+    exact ⟨hcn, hd, by rw [hD, List.take_length], by simp⟩
+  · rw [nextFrame_flt_none]; simp only [advancePc]
+    refine ⟨hcn, hd, hcl, ht, ?_⟩
+    rw [← hpath, content_setFile, hD', pwriteAt_end, if_pos hlen]
+  · rw [nextFrame_flt_short_pwrite]; simp only [advancePc]
+    refine ⟨hcn, hd, ?_, by simp⟩
+    rw [← hpath, content_setFile, hD', pwriteAt_end]; simp
+
+
+theorem body_ge {D o nw : Bytes} (hge : nw.length ≥ o.length)
+    (hD : D = if nw.length > o.length then o ++ nw.drop o.length else o) :
+    pwriteAt D 0 (nw.take o.length) = nw := by
+  rw [pwriteAt_zero, List.length_take, Nat.min_eq_left hge, hD]
+  split
+  · rw [List.drop_left]; exact List.take_append_drop _ _
+  · have : nw.length = o.length := by omega
+    rw [List.drop_length, List.append_nil, ← this, List.take_length]
+
+theorem t_step_tTailUndo {s : State} {w' : World} {c fr p t fd o f n r} (cx : TCtx s c fr p t)
+    (hpc : fr.pc = .tTailUndo fd o) (hr : TransOK s.w fr t)
+    (h : osStep s.w c (.ftruncate fd o.length) f = some (w', r)) :
+    TransOK w' (nextFrame s.w w' fr (.ftruncate fd o.length) .tailUndo f n r) t := by
+  obtain ⟨od, hod, hpath, _, hwr, happ⟩ := cx.own (fd := fd) (by simp [hpc, Pc.fd?])
+  unfold TransOK at hr; rw [hpc] at hr
+  obtain ⟨hcn, hd, hD, hne⟩ := hr
+  have hD' : (s.w.content od.path).take o.length = o := by rw [hpath]; exact hD
+  rw [transOK_next, nextFrame_h1_eq (by intro fd e; rw [hpc] at e; cases e),
+    nextFrame_committed_keep (by simp [hpc, releases]), hpc]
+  rcases cls_ftruncate hod hwr h with ⟨e, hf, rfl, rfl⟩ | ⟨hf, rfl, rfl⟩
+  · rw [nextFrame_flt_err hf]; simp only [advancePc]
+    exact ⟨hcn, o, hd, .inr ⟨rfl, fun hn => absurd rfl (hn _ (List.mem_cons_self ..)).1, .inl (by simp)⟩⟩
+  · rw [nextFrame_flt_noerr hf (by intros; simp) (by intros; simp)]; simp only [advancePc]
+    refine ⟨hcn, o, hd, .inr ⟨rfl, fun _ => ?_, .inl hne⟩⟩
+    rw [← hpath, content_setFile, resize_of_take hD']
+
+theorem t_step_tBody {s : State} {w' : World} {c fr p t fd o nw sc f n r} (cx : TCtx s c fr p t)
+    (hpc : fr.pc = .tBody fd o nw) (hr : TransOK s.w fr t)
+    (hsc : sc = if nw.length ≥ o.length then Sys.pwrite fd (nw.take o.length) 0 else Sys.pwrite fd nw 0)
+    (h : osStep s.w c sc f = some (w', r)) :
+    TransOK w' (nextFrame s.w w' fr sc .body f n r) t := by
+  obtain ⟨od, hod, hpath, _, hwr, happ⟩ := cx.own (fd := fd) (by simp [hpc, Pc.fd?])
+  unfold TransOK at hr; rw [hpc] at hr
+  obtain ⟨hcn, hd, hcl, ht, hD⟩ := hr
+  have hD' : s.w.content od.path = if nw.length > o.length then o ++ nw.drop o.length else o := by
+    rw [hpath]; exact hD
+  rw [transOK_next, nextFrame_h1_eq (by intro fd e; rw [hpc] at e; cases e),
+    nextFrame_committed_keep (by simp [hpc, releases]), hpc]
+  have hrb : rollbackPc fd o = .tRb1 fd o := by simp [rollbackPc, Gen.Lockedfile.tRollback]
+  by_cases hge : nw.length ≥ o.length
+  · rw [if_pos hge] at hsc; subst hsc
+    rcases cls_pwrite hod hwr happ h with ⟨e, hf, rfl, rfl⟩ | ⟨rfl, rfl, rfl⟩ | ⟨k, rfl, rfl, rfl⟩
+    · rw [nextFrame_flt_err hf]; simp only [advancePc, hrb]; exact ⟨hcn, hd, by simp⟩
+    · rw [nextFrame_flt_none]; simp only [advancePc, if_pos hge]
+      refine ⟨hcn, o, hd, .inl ⟨rfl, ?_, hcl.okTags⟩⟩
+      rw [← hpath, content_setFile, body_ge hge hD']; exact ht
+    · rw [nextFrame_flt_short_pwrite]; simp only [advancePc, hrb]; exact ⟨hcn, hd, by simp⟩
+  · rw [if_neg hge] at hsc; subst hsc
+    have hlt : nw.length < o.length := by omega
+    have hngt : ¬ nw.length > o.length := by omega
+    rw [if_neg hngt] at hD'
+    rcases cls_pwrite hod hwr happ h with ⟨e, hf, rfl, rfl⟩ | ⟨rfl, rfl, rfl⟩ | ⟨k, rfl, rfl, rfl⟩
+    · rw [nextFrame_flt_err hf]; simp only [advancePc, hrb]; exact ⟨hcn, hd, by simp⟩
+    · rw [nextFrame_flt_none]; simp only [advancePc, if_neg hge]
+      refine ⟨hcn, hd, hcl, ht, hlt, ?_⟩
+      rw [← hpath, content_setFile, hD', pwriteAt_zero]
+    · rw [nextFrame_flt_short_pwrite]; simp only [advancePc, hrb]; exact ⟨hcn, hd, by simp⟩
+
+theorem t_step_tShrink {s : State} {w' : World} {c fr p t fd o nw f n r} (cx : TCtx s c fr p t)
+    (hpc : fr.pc = .tShrink fd o nw) (hr : TransOK s.w fr t)
+    (h : osStep s.w c (.ftruncate fd nw.length) f = some (w', r)) :
+    TransOK w' (nextFrame s.w w' fr (.ftruncate fd nw.length) .shrink f n r) t := by
+  obtain ⟨od, hod, hpath, _, hwr, happ⟩ := cx.own (fd := fd) (by simp [hpc, Pc.fd?])
+  unfold TransOK at hr; rw [hpc] at hr
+  obtain ⟨hcn, hd, hcl, ht, hlt, hD⟩ := hr
+  have hD' : s.w.content od.path = nw ++ o.drop nw.length := by rw [hpath]; exact hD
+  rw [transOK_next, nextFrame_h1_eq (by intro fd e; rw [hpc] at e; cases e),
+    nextFrame_committed_keep (by simp [hpc, releases]), hpc]
+  have hrb : rollbackPc fd o = .tRb1 fd o := by simp [rollbackPc, Gen.Lockedfile.tRollback]
+  rcases cls_ftruncate hod hwr h with ⟨e, hf, rfl, rfl⟩ | ⟨hf, rfl, rfl⟩
+  · rw [nextFrame_flt_err hf]; simp only [advancePc, hrb]; exact ⟨hcn, hd, by simp⟩
+  · rw [nextFrame_flt_noerr hf (by intros; simp) (by intros; simp)]; simp only [advancePc]
+    refine ⟨hcn, o, hd, .inl ⟨rfl, ?_, hcl.okTags⟩⟩
+    rw [← hpath, content_setFile, resize_of_take (by rw [hD']; simp)]; exact ht
+
+theorem t_step_tRb1 {s : State} {w' : World} {c fr p t fd o f n r} (cx : TCtx s c fr p t)
+    (hpc : fr.pc = .tRb1 fd o) (hr : TransOK s.w fr t)
+    (h : osStep s.w c (.pwrite fd o 0) f = some (w', r)) :
+    TransOK w' (nextFrame s.w w' fr (.pwrite fd o 0) .rb1 f n r) t := by
+  obtain ⟨od, hod, hpath, _, hwr, happ⟩ := cx.own (fd := fd) (by simp [hpc, Pc.fd?])
+  unfold TransOK at hr; rw [hpc] at hr
+  obtain ⟨hcn, hd, hne⟩ := hr
+  rw [transOK_next, nextFrame_h1_eq (by intro fd e; rw [hpc] at e; cases e),
+    nextFrame_committed_keep (by simp [hpc, releases]), hpc]
+  rcases cls_pwrite hod hwr happ h with ⟨e, hf, rfl, rfl⟩ | ⟨rfl, rfl, rfl⟩ | ⟨k, rfl, rfl, rfl⟩
+  · rw [nextFrame_flt_err hf]; simp only [advancePc]
+    exact ⟨hcn, o, hd, .inr ⟨rfl, fun hn => absurd rfl (hn _ (List.mem_cons_self ..)).2.1, .inl (by simp)⟩⟩
+  · rw [nextFrame_flt_none]; simp only [advancePc]
+    refine ⟨hcn, hd, ?_, hne⟩
+    rw [← hpath, content_setFile, pwriteAt_zero]; simp
+  · rw [nextFrame_flt_short_pwrite]; simp only [advancePc]
+    exact ⟨hcn, o, hd, .inr ⟨rfl, fun hn => absurd rfl (hn _ (List.mem_cons_self ..)).2.1, .inl (by simp)⟩⟩
+
+theorem t_step_tRb2 {s : State} {w' : World} {c fr p t fd o f n r} (cx : TCtx s c fr p t)
+    (hpc : fr.pc = .tRb2 fd o) (hr : TransOK s.w fr t)
+    (h : osStep s.w c (.ftruncate fd o.length) f = some (w', r)) :
+    TransOK w' (nextFrame s.w w' fr (.ftruncate fd o.length) .rb2 f n r) t := by
+  obtain ⟨od, hod, hpath, _, hwr, happ⟩ := cx.own (fd := fd) (by simp [hpc, Pc.fd?])
+  unfold TransOK at hr; rw [hpc] at hr
+  obtain ⟨hcn, hd, hD, hne⟩ := hr
+  have hD' : (s.w.content od.path).take o.length = o := by rw [hpath]; exact hD
+  rw [transOK_next, nextFrame_h1_eq (by intro fd e; rw [hpc] at e; cases e),
+    nextFrame_committed_keep (by simp [hpc, releases]), hpc]
+  rcases cls_ftruncate hod hwr h with ⟨e, hf, rfl, rfl⟩ | ⟨hf, rfl, rfl⟩
+  · rw [nextFrame_flt_err hf]; simp only [advancePc]
+    exact ⟨hcn, o, hd, .inr ⟨rfl, fun hn => absurd rfl (hn _ (List.mem_cons_self ..)).2.2, .inl (by simp)⟩⟩
+  · rw [nextFrame_flt_noerr hf (by intros; simp) (by intros; simp)]; simp only [advancePc]
+    refine ⟨hcn, o, hd, .inr ⟨rfl, fun _ => ?_, .inl hne⟩⟩
+    rw [← hpath, content_setFile, resize_of_take hD']
+
+
+theorem nextFrame_h1_lock {w w' : World} {fr : Frame} {sc tag f n fd} (h : fr.pc = .lock fd) :
+    (nextFrame w w' fr sc tag f n .ok).h1 = w'.hist fr.op.path := by
+  simp [nextFrame, h]
+
+theorem nextFrame_committed_release {w w' : World} {fr : Frame} {sc tag f n r} (h : releases fr.pc r = true)
+    (hex : lockMode fr.op.flag = .ex) :
+    (nextFrame w w' fr sc tag f n r).committed = some (w.content fr.op.path) := by
+  simp [nextFrame, h, hex]
+
+theorem t_step_tRead {s : State} {w' : World} {c fr p t fd acc f n r} (cx : TCtx s c fr p t)
+    (hpc : fr.pc = .tRead fd acc) (hr : TransOK s.w fr t)
+    (h : osStep s.w c (.read fd n) f = some (w', r)) :
+    TransOK w' (nextFrame s.w w' fr (.read fd n) .read f n r) t := by
+  obtain ⟨od, hod, hpath, hrd, hwr, happ⟩ := cx.own (fd := fd) (by simp [hpc, Pc.fd?])
+  unfold TransOK at hr; rw [hpc] at hr
+  obtain ⟨hcn, hd, hcl, o', ho', hacc, hoff⟩ := hr
+  rw [hod] at ho'; cases ho'
+  rw [transOK_next, nextFrame_h1_eq (by intro fd e; rw [hpc] at e; cases e),
+    nextFrame_committed_keep (by simp [hpc, releases]), hpc]
+  rcases cls_read hod hrd h with ⟨e, hf, rfl, rfl⟩ | ⟨hf, ⟨hlt, rfl, rfl⟩ | ⟨hge, rfl, rfl⟩⟩
+  · rw [nextFrame_flt_err hf]; simp only [advancePc]
+    exact ⟨hcn, _, hd, .inr ⟨rfl, fun _ => rfl, .inl (by simp)⟩⟩
+  · rw [nextFrame_flt_noerr hf (by intros; simp) (by intros; simp)]; simp only [advancePc]
+    refine ⟨hcn, hd, hcl, _, upd_same _ _ _, ?_, ?_⟩
+    · show acc ++ _ = List.take (acc ++ _).length (s.w.content fr.op.path)
+      rw [List.length_append, List.take_add, ← hacc, hpath, hoff]
+      congr 1
+      exact (take_length_take _ n).symm
+    · simp [hoff, hpath]
+  · rw [nextFrame_flt_noerr hf (by intros; simp) (by intros; simp)]
+    have hD : acc = s.w.content fr.op.path := by
+      rw [hacc]; apply List.take_of_length_le
+      rw [← hoff, ← hpath]; exact Nat.le_of_not_lt hge
+    have hadv : advancePc fr.op (.tRead fd acc) n .eof =
+        (match t acc with
+          | none => Pc.unlock fd .err
+          | some nw => if nw.length > acc.length && Gen.Lockedfile.tTailFirst then .tTail fd acc nw else .tBody fd acc nw) := by
+      rw [cx.hop]; rfl
+    rw [hadv]
+    cases hta : t acc with
+    | none =>
+      simp only
+      exact ⟨hcn, _, hd, .inr ⟨rfl, fun _ => rfl, .inr (by rw [← hD]; exact hta)⟩⟩
+    | some nw =>
+      simp only [Gen.Lockedfile.tTailFirst, Bool.and_true, decide_eq_true_eq]
+      split
+      · rename_i hgt
+        exact ⟨hcn, by rw [hD]; exact hd, hcl, hD.symm, hta, hgt⟩
+      · rename_i hgt
+        exact ⟨hcn, by rw [hD]; exact hd, hcl, hta, by rw [if_neg hgt]; exact hD.symm⟩
+
+theorem t_step_open {s : State} {w' : World} {c fr p t f n r} (cx : TCtx s c fr p t)
+    (hpc : fr.pc = .open) (hr : TransOK s.w fr t)
+    (h : osStep s.w c (.open fr.op.path (openFlags fr.op.flag)) f = some (w', r)) :
+    TransOK w' (nextFrame s.w w' fr (.open fr.op.path (openFlags fr.op.flag)) .open f n r) t := by
+  unfold TransOK at hr; rw [hpc] at hr
+  obtain ⟨hcn, hcl⟩ := hr
+  have hh := cx.hist
+  simp only [HistOK, hpc, Pc.preLock, if_true] at hh
+  rw [transOK_next, nextFrame_h1_eq (by intro fd e; rw [hpc] at e; cases e),
+    nextFrame_committed_keep (by simp [hpc, releases]), hpc]
+  have hcr : fCreat (openFlags fr.op.flag) = true := by rw [cx.flag]; decide
+  have hex : fExcl (openFlags fr.op.flag) = false := by rw [cx.flag]; decide
+  rcases cls_open hcr hex h with ⟨e, hf, rfl, rfl⟩ | ⟨hf, rfl, rfl⟩
+  · simp only [advancePc]
+    exact ⟨⟨fun v hv => (by rw [hcn] at hv; cases hv), fun hne => absurd hh.1 hne⟩,
+      fun v hv => (by rw [hcn] at hv; cases hv)⟩
+  · rw [nextFrame_flt_noerr hf (by intros; simp) (by intros; simp)]
+    simp only [advancePc, Gen.Lockedfile.truncAfterLock, Bool.not_true, Bool.and_false, Bool.false_eq_true, if_false]
+    exact ⟨hcn, hcl, _, upd_same _ _ _, rfl⟩
+
+theorem t_step_lock {s : State} {w' : World} {c fr p t fd f n r} (cx : TCtx s c fr p t)
+    (hpc : fr.pc = .lock fd) (hr : TransOK s.w fr t)
+    (h : osStep s.w c (.flock fd (lockMode fr.op.flag)) f = some (w', r)) :
+    TransOK w' (nextFrame s.w w' fr (.flock fd (lockMode fr.op.flag)) .lock f n r) t := by
+  obtain ⟨od, hod, hpath, hrd, hwr, happ⟩ := cx.own (fd := fd) (by simp [hpc, Pc.fd?])
+  unfold TransOK at hr; rw [hpc] at hr
+  obtain ⟨hcn, hcl, o', ho', hoff⟩ := hr
+  rw [hod] at ho'; cases ho'
+  have hh := cx.hist
+  simp only [HistOK, hpc, Pc.preLock, if_true] at hh
+  have hexm : lockMode fr.op.flag = .ex := by rw [cx.flag]; decide
+  have hnothing := (((cx.hi.clients c).frame fr cx.hcur).fd fd (by simp [hpc, Pc.fd?])).2.2
+  simp only [hpc, Pc.locked, Bool.false_eq_true, if_false] at hnothing
+  rw [transOK_next, nextFrame_committed_keep (by simp [hpc, releases]), hpc]
+  rcases cls_flock hod (by simp [hwr]) h with ⟨e, hf, rfl, rfl⟩ | ⟨hf, hc, rfl, rfl⟩
+  · rw [nextFrame_flt_err hf]
+    have h1e : (nextFrame s.w s.w fr (.flock fd (lockMode fr.op.flag)) .lock f n (.err e)).h1 = fr.h1 := by
+      simp [nextFrame, hpc]
+    rw [h1e]
+    have hcl' : Clean ((Tag.lock, f) :: fr.flt) := by
+      intro x hx; rcases List.mem_cons.1 hx with rfl | hx
+      · rfl
+      · exact hcl x hx
+    have : advancePc fr.op (.lock fd) n (.err e) = .lock fd ∨ advancePc fr.op (.lock fd) n (.err e) = .close fd .err false := by
+      simp only [advancePc]; cases e <;> simp [Gen.Lockedfile.retriesEINTR]
+    rcases this with hp | hp <;> rw [hp]
+    · exact ⟨hcn, hcl', _, hod, hoff⟩
+    · exact ⟨⟨fun v hv => (by rw [hcn] at hv; cases hv), fun hne => absurd hh.1 hne⟩,
+        fun v hv => (by rw [hcn] at hv; cases hv)⟩
+  · rw [nextFrame_flt_noerr hf (by intros; simp) (by intros; simp), nextFrame_h1_lock hpc]
+    have hp : advancePc fr.op (.lock fd) n .ok = .tRead fd [] := by
+      simp only [advancePc, afterLock, cx.hop, Op.flag, afterOpen]
+      have : wantsTrunc Gen.Lockedfile.flagsEdit = false := by decide
+      simp [this]
+    rw [hp]
+    -- nobody holds the exclusive lock before the grant, so the contents are the newest commit
+    rw [hexm] at hc
+    simp only [compatible, Bool.and_eq_true, Bool.or_eq_true, beq_iff_eq] at hc
+    have hne : (s.w.locks od.path).ex ≠ some fd := fun e => hnothing od.path .ex e
+    have hex0 : (s.w.locks od.path).ex = none := by
+      rcases hc.1 with e | e
+      · exact e
+      · exact absurd e hne
+    have hhist : (acquire s.w fd od.path (lockMode fr.op.flag)).hist fr.op.path = s.w.hist fr.op.path := by
+      rw [acquire_hist, dropLock_hist, if_neg (fun h => hne h.2)]
+    refine ⟨hcn, ?_, hcl, od, by simpa using hod, by simp, by simpa using hoff⟩
+    rw [hhist, acquire_content, ← hpath]
+    exact cx.h2.head _ hex0
+
+theorem t_step_unlock {s : State} {w' : World} {c fr p t fd ret f n r} (cx : TCtx s c fr p t)
+    (hpc : fr.pc = .unlock fd ret) (hr : TransOK s.w fr t)
+    (h : osStep s.w c (.funlock fd) f = some (w', r)) :
+    TransOK w' (nextFrame s.w w' fr (.funlock fd) .unlock f n r) t := by
+  obtain ⟨od, hod, hpath, hrd, hwr, happ⟩ := cx.own (fd := fd) (by simp [hpc, Pc.fd?])
+  unfold TransOK at hr; rw [hpc] at hr
+  obtain ⟨hcn, hfin⟩ := hr
+  have hexm : lockMode fr.op.flag = .ex := by rw [cx.flag]; decide
+  have hcr : closeRet fr.op ret true = ret := by simp [closeRet, cx.hop, reportsCloseErr]
+  rw [transOK_next, nextFrame_h1_eq (by intro fd e; rw [hpc] at e; cases e), hpc]
+  rcases cls_funlock hod h with ⟨e, hf, rfl, rfl⟩ | ⟨hf, rfl, rfl⟩
+  · rw [nextFrame_flt_err hf, nextFrame_committed_keep (by simp [hpc, releases])]
+    have : advancePc fr.op (.unlock fd ret) n (.err e) = .unlock fd ret ∨
+        advancePc fr.op (.unlock fd ret) n (.err e) = .close fd ret true := by
+      simp only [advancePc, hcr]; cases e <;> simp [Gen.Lockedfile.retriesEINTR]
+    rcases this with hp | hp <;> rw [hp] <;> exact ⟨hcn, hfin.mono _ (.inl rfl)⟩
+  · rw [nextFrame_flt_noerr hf (by intros; simp) (by intros; simp),
+      nextFrame_committed_release (by simp [hpc, releases]) hexm]
+    simp only [advancePc]
+    refine ⟨⟨fun v hv => (by cases hv; exact hfin), fun _ _ => rfl⟩, fun v hv => ?_⟩
+    cases hv
+    have hl := (((cx.hi.clients c).frame fr cx.hcur).fd fd (by simp [hpc, Pc.fd?])).2.2
+    simp only [hpc, Pc.locked, if_true, hexm] at hl
+    have hh := cx.hist
+    simp only [HistOK, hpc, Pc.preLock, Pc.locked, Bool.false_eq_true, if_false, if_true] at hh
+    rw [hpath, dropLock_pushes hl, hh.1]
+    exact List.suffix_refl _
+
+theorem t_step_close {s : State} {w' : World} {c fr p t fd ret b f n r} (cx : TCtx s c fr p t)
+    (hpc : fr.pc = .close fd ret b) (hr : TransOK s.w fr t)
+    (h : osStep s.w c (.close fd) f = some (w', r)) :
+    TransOK w' (nextFrame s.w w' fr (.close fd) .close f n r) t := by
+  obtain ⟨od, hod, hpath, hrd, hwr, happ⟩ := cx.own (fd := fd) (by simp [hpc, Pc.fd?])
+  unfold TransOK at hr; rw [hpc] at hr
+  have hexm : lockMode fr.op.flag = .ex := by rw [cx.flag]; decide
+  have hcr : closeRet fr.op ret true = ret := by simp [closeRet, cx.hop, reportsCloseErr]
+  rw [transOK_next, nextFrame_h1_eq (by intro fd e; rw [hpc] at e; cases e), hpc]
+  rcases cls_close hod h with ⟨e, hf, rfl, rfl⟩ | ⟨hf, rfl, rfl⟩
+  · rw [nextFrame_flt_err hf, nextFrame_committed_keep (by simp [hpc, releases])]
+    simp only [advancePc, hcr]
+    cases b
+    · exact ⟨hr.1.mono _ (.inr rfl), hr.2⟩
+    · obtain ⟨hcn, _⟩ := hr
+      exact ⟨⟨fun v hv => (by rw [hcn] at hv; cases hv),
+        fun _ hn => absurd rfl (hn _ (List.mem_cons_self ..)).2⟩, fun v hv => (by rw [hcn] at hv; cases hv)⟩
+  · rw [nextFrame_flt_noerr hf (by intros; simp) (by intros; simp)]
+    simp only [advancePc]
+    cases b
+    · rw [nextFrame_committed_keep (by simp [hpc, releases])]
+      exact ⟨hr.1, hr.2.mono (osStep_hist_suffix h _)⟩
+    · obtain ⟨hcn, hfin⟩ := hr
+      rw [nextFrame_committed_release (by simp [hpc, releases]) hexm]
+      refine ⟨⟨fun v hv => (by cases hv; exact hfin), fun _ _ => rfl⟩, fun v hv => ?_⟩
+      cases hv
+      have hl := (((cx.hi.clients c).frame fr cx.hcur).fd fd (by simp [hpc, Pc.fd?])).2.2
+      simp only [hpc, Pc.locked, if_true, hexm] at hl
+      have hh := cx.hist
+      simp only [HistOK, hpc, Pc.preLock, Pc.locked, Bool.false_eq_true, if_false, if_true] at hh
+      rw [closeFd_hist, hpath, dropLock_pushes hl, hh.1]
+      exact List.suffix_refl _
+
+
+/-- The running Transform's own step keeps its invariant (one lemma per control point above). -/
+theorem transOK_step {s : State} {w' : World} {c : Cid} {fr : Frame} {p t n sc tag f r} (cx : TCtx s c fr p t)
+    (hr : TransOK s.w fr t) (hs : sysOf fr n = some (sc, tag)) (h : osStep s.w c sc f = some (w', r)) :
+    TransOK w' (nextFrame s.w w' fr sc tag f n r) t := by
+  have hr0 := hr
+  unfold TransOK at hr0
+  cases hpc : fr.pc <;> simp only [sysOf, hpc] at hs <;> rw [hpc] at hr0
+  case «open» => simp at hs; obtain ⟨rfl, rfl⟩ := hs; exact t_step_open cx hpc hr h
+  case lock fd => simp at hs; obtain ⟨rfl, rfl⟩ := hs; exact t_step_lock cx hpc hr h
+  case tRead fd acc =>
+    split at hs
+    · cases hs
+    · simp at hs; obtain ⟨rfl, rfl⟩ := hs; exact t_step_tRead cx hpc hr h
+  case tTail fd o nw => simp at hs; obtain ⟨rfl, rfl⟩ := hs; exact t_step_tTail cx hpc hr h
+  case tTailUndo fd o => simp at hs; obtain ⟨rfl, rfl⟩ := hs; exact t_step_tTailUndo cx hpc hr h
+  case tBody fd o nw =>
+    have : sc = (if nw.length ≥ o.length then Sys.pwrite fd (nw.take o.length) 0 else Sys.pwrite fd nw 0) ∧ tag = .body := by
+      split at hs <;> simp at hs <;> obtain ⟨rfl, rfl⟩ := hs <;> simp [*]
+    obtain ⟨hsc, rfl⟩ := this
+    exact t_step_tBody cx hpc hr hsc h
+  case tShrink fd o nw => simp at hs; obtain ⟨rfl, rfl⟩ := hs; exact t_step_tShrink cx hpc hr h
+  case tRb1 fd o => simp at hs; obtain ⟨rfl, rfl⟩ := hs; exact t_step_tRb1 cx hpc hr h
+  case tRb2 fd o => simp at hs; obtain ⟨rfl, rfl⟩ := hs; exact t_step_tRb2 cx hpc hr h
+  case unlock fd ret => simp at hs; obtain ⟨rfl, rfl⟩ := hs; exact t_step_unlock cx hpc hr h
+  case close fd ret b => simp at hs; obtain ⟨rfl, rfl⟩ := hs; exact t_step_close cx hpc hr h
+  case done r' => cases hs
+  all_goals exact hr0.elim
+
+/-- A step of another client keeps the invariant of a running Transform. -/
+theorem transOK_other {s s' : State} {c0 c : Cid} {a : Act} (hi : Inv1 s) (h : step s ⟨c0, a⟩ = some s')
+    (hc : c ≠ c0) {fr : Frame} {t} (hcur : (s.cl c).cur = some fr) (hr : TransOK s.w fr t) :
+    TransOK s'.w fr t := by
+  have hfr := (hi.clients c).frame fr hcur
+  unfold TransOK at hr ⊢
+  -- at a locked control point: the contents of the file do not change
+  have keep : ∀ fd, fr.pc.fd? = some fd → fr.pc.locked = true →
+      s'.w.content fr.op.path = s.w.content fr.op.path ∧ s'.w.fds fd = s.w.fds fd := by
+    intro fd hfd hl
+    obtain ⟨ho, _, hk⟩ := hfr.fd fd hfd
+    rw [if_pos hl] at hk
+    have := other_step_stable hi h hc ho
+    exact ⟨(this.2.2 _ hk).1, this.1⟩
+  cases hpc : fr.pc <;> rw [hpc] at hr <;> first | exact hr | exact hr.elim | skip
+  case done ret => exact ⟨hr.1, hr.2.mono (step_hist_suffix h _)⟩
+  case lock fd =>
+    obtain ⟨ho, _, _⟩ := hfr.fd fd (by simp [hpc, Pc.fd?])
+    obtain ⟨h1, h2, o, ho', hoff⟩ := hr
+    exact ⟨h1, h2, o, by rw [(other_step_stable hi h hc ho).1]; exact ho', hoff⟩
+  case tRead fd acc =>
+    obtain ⟨hc', hf'⟩ := keep fd (by simp [hpc, Pc.fd?]) (by simp [hpc, Pc.locked])
+    obtain ⟨h1, h2, h3, o, ho', h4, h5⟩ := hr
+    exact ⟨h1, by rw [hc']; exact h2, h3, o, by rw [hf']; exact ho', by rw [hc']; exact h4, h5⟩
+  case tTail fd o nw =>
+    obtain ⟨hc', _⟩ := keep fd (by simp [hpc, Pc.fd?]) (by simp [hpc, Pc.locked])
+    simpa only [TransP, hc'] using hr
+  case tTailUndo fd o =>
+    obtain ⟨hc', _⟩ := keep fd (by simp [hpc, Pc.fd?]) (by simp [hpc, Pc.locked])
+    simpa only [TransP, hc'] using hr
+  case tBody fd o nw =>
+    obtain ⟨hc', _⟩ := keep fd (by simp [hpc, Pc.fd?]) (by simp [hpc, Pc.locked])
+    simpa only [TransP, hc'] using hr
+  case tShrink fd o nw =>
+    obtain ⟨hc', _⟩ := keep fd (by simp [hpc, Pc.fd?]) (by simp [hpc, Pc.locked])
+    simpa only [TransP, hc'] using hr
+  case tRb2 fd o =>
+    obtain ⟨hc', _⟩ := keep fd (by simp [hpc, Pc.fd?]) (by simp [hpc, Pc.locked])
+    simpa only [TransP, hc'] using hr
+  case unlock fd ret =>
+    obtain ⟨hc', _⟩ := keep fd (by simp [hpc, Pc.fd?]) (by simp [hpc, Pc.locked])
+    simpa only [TransP, hc'] using hr
+  case close fd ret b =>
+    cases b
+    · exact ⟨hr.1, hr.2.mono (step_hist_suffix h _)⟩
+    · obtain ⟨hc', _⟩ := keep fd (by simp [hpc, Pc.fd?]) (by simp [hpc, Pc.locked])
+      simpa only [TransP, hc'] using hr
+
+def Inv4 (s : State) : Prop := ∀ c fr p t, (s.cl c).cur = some fr → fr.op = .transform p t → TransOK s.w fr t
+
+theorem init_Inv4 (files0 : Path → Option Bytes) : Inv4 (init files0) := fun c fr p t h => by simp [init] at h
+
+theorem step_Inv4 {s s' : State} {l : Label} (hi : Inv1 s) (h2 : Inv2 s) (h4 : Inv4 s) (h : step s l = some s') :
+    Inv4 s' := by
+  obtain ⟨c0, a⟩ := l
+  intro c fr p t hcur hop
+  by_cases hc : c = c0
+  · subst hc
+    cases a with
+    | call op =>
+      obtain ⟨_, _, rfl⟩ := step_call h
+      rw [setClient_cl_same] at hcur
+      simp only [Option.some.injEq] at hcur; subst hcur
+      simp only at hop; subst hop
+      exact ⟨rfl, fun x hx => by cases hx⟩
+    | ret =>
+      obtain ⟨_, _, _, _, rfl⟩ := step_ret h
+      rw [setClient_cl_same] at hcur; cases hcur
+    | sys f n =>
+      obtain ⟨fr0, sc, tag, w', r, hcur0, hs, hos, rfl⟩ := step_sys h
+      simp only [upd_same, Option.some.injEq] at hcur; subst hcur
+      exact transOK_step ⟨hi, h2, hcur0, hop⟩ (h4 c fr0 p t hcur0 hop) hs hos
+  · have hsame : (s'.cl c).cur = (s.cl c).cur := by
+      cases a with
+      | call op => obtain ⟨_, _, rfl⟩ := step_call h; rw [setClient_cl_other _ _ _ _ hc]
+      | ret => obtain ⟨_, _, _, _, rfl⟩ := step_ret h; rw [setClient_cl_other _ _ _ _ hc]
+      | sys f n => obtain ⟨_, _, _, _, _, _, _, _, rfl⟩ := step_sys h; simp only [upd_other _ _ _ _ hc]
+    rw [hsame] at hcur
+    exact transOK_other hi h hc hcur (h4 c fr p t hcur hop)
+
+theorem reachable_Inv4 {files0 : Path → Option Bytes} {s : State} (h : Reachable files0 s) : Inv4 s := by
+  induction h with
+  | init => exact init_Inv4 files0
+  | step l hr hs ih => exact step_Inv4 (reachable_Inv1 hr) (reachable_Inv2 hr) ih hs
 
 end GIV.Lockedfile
